@@ -112,6 +112,8 @@ class Interp(object):
         self._const_objs = {}
         self._tyname = {}
         self.mem_events = []     # raw memory intrinsic events for R-BOUNDS
+        self.assume = []         # undo log of path assumptions [(term id, old ub)]
+        tm.ASSUME_UB.clear()
         self.trace_calls = None
 
     # ------------------------------------------------------------------ types
@@ -1018,6 +1020,7 @@ class Interp(object):
                     self.record_panic('assert:' + t[3], fails, fr, t[6], detail if isinstance(detail, str) else 'bounds')
                     if fails is TRUE:
                         return 'div'
+                    self.assume_true(tm.b_not(fails))
                 bb = t[4]
             elif k == 'sw':
                 d = self.operand(fr, t[1])
@@ -1061,9 +1064,12 @@ class Interp(object):
                 else:
                     arms.append((tm.b_and(*neg), t[3]))
                 results = []
+                amark = self.assume_mark()
                 for (c, tb) in arms:
                     if c is FALSE:
                         continue
+                    self.assume_reset(amark)
+                    self.assume_true(c)
                     self.heap = {k_: v_.clone() for k_, v_ in base_heap.items()}
                     self.pathcond.append(c)
                     if tb not in reach and j is not None:
@@ -1072,7 +1078,10 @@ class Interp(object):
                         st = self.exec_from(fr, tb, j)
                     self.pathcond.pop()
                     results.append((c, st, self.heap))
+                self.assume_reset(amark)
                 live = [(c, st, h) for (c, st, h) in results if st != 'div']
+                if len(live) == 1:
+                    self.assume_true(live[0][0])
                 if not live:
                     self.heap = base_heap
                     return 'div'
@@ -1105,6 +1114,34 @@ class Interp(object):
         if tm.is_const(d):
             return TRUE if (tm.cbits(d) & ((1 << (8 * sz)) - 1)) == val else FALSE
         return tm.iop('eq', tn, d, const(val, sz))
+
+    def assume_true(self, c):
+        """c is known to hold on the rest of the current path (the other outcome diverged)"""
+        for x in (c.args if c.op == 'and' else (c,)):
+            ub = None
+            if x.op.startswith('lt:u') and tm.is_const(x.args[1]):
+                t, ub = x.args[0], tm.cbits(x.args[1]) - 1
+            elif x.op.startswith('le:u') and tm.is_const(x.args[1]):
+                t, ub = x.args[0], tm.cbits(x.args[1])
+            elif x.op.startswith('eq:') and (tm.is_const(x.args[0]) or tm.is_const(x.args[1])):
+                k, t = (x.args[0], x.args[1]) if tm.is_const(x.args[0]) else (x.args[1], x.args[0])
+                ub = tm.cbits(k)
+            if ub is not None and ub >= 0:
+                old = tm.ASSUME_UB.get(t.id)
+                if old is None or ub < old:
+                    self.assume.append((t.id, old))
+                    tm.ASSUME_UB[t.id] = ub
+
+    def assume_mark(self):
+        return len(self.assume)
+
+    def assume_reset(self, mark):
+        while len(self.assume) > mark:
+            tid, old = self.assume.pop()
+            if old is None:
+                tm.ASSUME_UB.pop(tid, None)
+            else:
+                tm.ASSUME_UB[tid] = old
 
     def record_panic(self, kind, cond, fr, line, detail):
         full = tm.b_and(cond, *self.pathcond)
